@@ -461,9 +461,13 @@ package service
 
 // mrec[t][id]: the registry of miner type t holds a record under id (a miner id names one miner, whatever its type).
 //@ ghost mrec (Array Int (Array Bytes Bool))
+// mstatus[id]: the status stored in the record of miner id (normal / aborted); a record found in the registry of a
+// type has that type.
+//@ ghost mstatus (Array Bytes Int)
 //@ func MinerManager.GetMinerById
 //@   option trusted
 //@   ensures result != nil ==> fresh(result) && Z(result.Stake) == @select(ghost(mstake), old(bytes(id))) && bytes(result.Id) == old(bytes(id))
+//@   ensures [status] result != nil ==> Z(result.Status) == @select(ghost(mstatus), old(bytes(id))) && result.Type == kind
 //@   ensures [found] (result != nil) == @select(@select(ghost(mrec), Z(kind)), old(bytes(id)))
 //@   modifies nothing
 
@@ -472,7 +476,8 @@ package service
 //@   requires miner != nil
 //@   ensures ghost(mstake) == @store(old(ghost(mstake)), bytes(miner.Id), Z(miner.Stake))
 //@   ensures ghost(mrec) == @store(old(ghost(mrec)), Z(miner.Type), @store(@select(old(ghost(mrec)), Z(miner.Type)), bytes(miner.Id), true))
-//@   modifies ghost(mstake), ghost(mrec), ghost(stver)
+//@   ensures ghost(mstatus) == @store(old(ghost(mstatus)), bytes(miner.Id), Z(miner.Status))
+//@   modifies ghost(mstake), ghost(mrec), ghost(stver), ghost(mstatus)
 
 //@ func MinerManager.AddStake
 //@   property C20 C06
@@ -486,6 +491,10 @@ package service
 //@   ensures [stake]    result0 && delta != 0 ==> @select(ghost(mstake), old(bytes(minerId))) == old(@select(ghost(mstake), bytes(minerId))) + delta
 //@   ensures [others]   forall k Bytes :: k != old(bytes(minerId)) ==> @select(ghost(mstake), k) == old(@select(ghost(mstake), k))
 //@   ensures [paid]     result0 && delta != 0 ==> balOf(addr) == old(balOf(addr)) - stakeUnits(real(delta)) && balOf(addr) >= 0 && forall a common.Address :: a != addr ==> balOf(a) == old(balOf(a))
+//@   # a miner counts for leader election while its stake is at least the minimum OF ITS TYPE: topping a record up above
+//@   # that minimum makes it active again, topping it up to less leaves its status alone
+//@   ensures [active]   result0 && delta != 0 && old(@select(ghost(mstake), bytes(minerId))) + delta > ite(old(@select(@select(ghost(mrec), Z(common.MinerTypeProposer)), bytes(minerId))), common.ProposerStake, common.ValidatorStake) ==> @select(ghost(mstatus), old(bytes(minerId))) == common.MinerStatusNormal
+//@   ensures [dormant]  result0 && delta != 0 && old(@select(ghost(mstake), bytes(minerId))) + delta < ite(old(@select(@select(ghost(mrec), Z(common.MinerTypeProposer)), bytes(minerId))), common.ProposerStake, common.ValidatorStake) ==> @select(ghost(mstatus), old(bytes(minerId))) == old(@select(ghost(mstatus), bytes(minerId)))
 
 // Applying a miner: accepted only for a known type with at least the minimum stake, non-empty keys, a payer that
 // covers the stake, an unused id and an account that controls no other miner (in either registry, whatever the
@@ -511,7 +520,7 @@ package service
 //@ func MinerManager.RemoveMiner
 //@   option trusted
 //@   ensures ghost(mstake) == @store(old(ghost(mstake)), old(bytes(id)), Z(left))
-//@   modifies ghost(mstake), ghost(mrec), ghost(stver)
+//@   modifies ghost(mstake), ghost(mrec), ghost(stver), ghost(mstatus)
 
 //@ func RefundManager.getRefundHeight
 //@   option trusted
@@ -529,7 +538,7 @@ package service
 //@   ensures [all]       result3 == nil && money == 18446744073709551615 ==> @select(ghost(mstake), old(bytes(minerId))) == 0
 //@   ensures [owner]     result3 == nil ==> bytes(result2) == old(bytes(account))
 //@   ensures [others]    forall k Bytes :: k != old(bytes(minerId)) ==> @select(ghost(mstake), k) == old(@select(ghost(mstake), k))
-//@   modifies ghost(mstake), ghost(mrec), ghost(stver)
+//@   modifies ghost(mstake), ghost(mrec), ghost(stver), ghost(mstatus)
 
 // The pool as seen by the block store (C05): un-marking touches the pool's own databases only.
 //@ func TransactionPool.UnMarkExecuted
